@@ -447,6 +447,17 @@ func (in *c18Inst) sample(pos string, boundary, first, fresh bool) error {
 	// --- a rollover happened since the previous sample?
 	rolled := in.servedRaw != nil && !bytes.Equal(raw, in.servedRaw)
 	if rolled {
+		// "the certificate served during the following period is the one previously advertised as next"
+		for _, a := range in.advCur {
+			if !a.ser[hash] || !a.addr[hash] {
+				return seqmc.Violation("served-cert-was-not-advertised-as-next", "certificate served from %s on (sha256 %s) was not among the hashes advertised at %s: %s",
+					in.rel(now), hash[:16], in.rel(a.at), a.sig)
+			}
+		}
+		if in.nextRaw != nil && !bytes.Equal(raw, in.nextRaw) {
+			return seqmc.Violation("served-cert-is-not-the-announced-next", "after the rollover before %s the served certificate (sha256 %s) is not the one held as next (sha256 %s)",
+				in.rel(now), hash[:16], c18Sha(in.nextRaw)[:16])
+		}
 		// start of the new certificate's interval: the instant the background goroutine woke up
 		if at, ok := in.clk.lastReadIn(in.lastSample, now); ok {
 			if leaf.NotBefore.Add(c18Skew).After(at) {
@@ -458,16 +469,6 @@ func (in *c18Inst) sample(pos string, boundary, first, fresh bool) error {
 			}
 		} else if first {
 			in.outcome("rollover instant NOT pinned (no clock read recorded)")
-		}
-		if in.nextRaw != nil && !bytes.Equal(raw, in.nextRaw) {
-			return seqmc.Violation("served-cert-is-not-the-announced-next", "after the rollover before %s the served certificate (sha256 %s) is not the one held as next (sha256 %s)",
-				in.rel(now), hash[:16], c18Sha(in.nextRaw)[:16])
-		}
-		for _, a := range in.advCur {
-			if !a.ser[hash] || !a.addr[hash] {
-				return seqmc.Violation("served-cert-was-not-advertised-as-next", "certificate served from %s on (sha256 %s) was not among the hashes advertised at %s: %s",
-					in.rel(now), hash[:16], in.rel(a.at), a.sig)
-			}
 		}
 		in.advPrev, in.advCur = in.advCur, nil
 		in.rolls++
